@@ -59,6 +59,7 @@ def _scenario(draw, tier):
         return dict(mode=mode, cfgs=cfgs, shared=shared, seed=draw(st.integers(0, 2 ** 32 - 1)),
                     advances=[draw(st.one_of(st.sampled_from([0, 1, 3, 10]), st.integers(0, 40)))
                               for _ in range(draw(st.integers(1, 2)))],
+                    retune=draw(st.booleans()),
                     sched=dict(seed=draw(st.integers(0, 2 ** 31 - 1)), stall_p=draw(st.sampled_from([0.0, 0.02, 0.1])),
                                speed_spread=draw(st.sampled_from([1.0, 4.0, 20.0]))),
                     eval_cost=draw(st.sampled_from([1e-5, 1e-3, 0.1])), cores=draw(st.sampled_from([None, 1, 2, 3])))
@@ -275,6 +276,20 @@ def run_pool(sc, V, stats):
                 if V:
                     break
                 stats["pool_chains_compared"] += len(serial)
+                if sc.get("retune"):
+                    # between two pooled advances the caller re-tunes what the public API lets it re-tune on the pool's chains
+                    # (HamiltonianChain.estimate_mass); the serial reference gets the same call
+                    for a_, b_ in zip(got, serial):
+                        if type(a_).__name__ == "HamiltonianChain" and getattr(a_, "chain_length", 0) >= 2 * a_.n_parameters + 8:
+                            try:
+                                Sa_ = np.asarray(a_.get_sample(burn=1), dtype=float)
+                                if not np.all(Sa_.var(axis=0) > 0):
+                                    continue
+                                lib_call("estimate_mass", a_.estimate_mass)
+                                lib_call("estimate_mass", b_.estimate_mass)
+                                stats["fault_mass_re_estimated_between_pooled_advances"] += 1
+                            except LibRaised:
+                                stats["estimate_mass_failed_skipped"] += 1
     except kernel.Deadlock as e:
         dead = [(t.name, type(t.exc).__name__, str(t.exc)[:300]) for t in sim.tasks if t.exc is not None]
         _viol(V, "pool.liveness", "deadlock in ChainPool.advance: %s %r" % (e, dead))
